@@ -34,7 +34,7 @@ def axes(tier):
         dm=[(1, 1), (2, 1), (1, 2)] if quick else [(1, 1), (2, 1), (3, 1), (1, 2), (2, 2)],
         q=[1, 2, 4] if quick else [1, 2, 3, 4, 6, 8],
         init=["exact", "inexact"],
-        variant=["plain"] if quick else ["plain", "scaled", "diffuse", "constraint_init", "mle_nocorr", "prior_ou", "prior_matern"],
+        variant=["plain", "constraint_init"] if quick else ["plain", "scaled", "diffuse", "constraint_init", "mle_nocorr", "prior_ou", "prior_matern"],
         steps=[2.0 ** -7, 0.125, 0.5] if quick else alphabets.STEP_MENU,
         lengths=[3] if quick else [1, 2, 3, 4],
     )
@@ -61,6 +61,8 @@ def enumerate_cases(tier, seed):
     for (d, m), q, init, variant, (calib, relin) in itertools.product(ax["dm"], ax["q"], ax["init"], ax["variant"], ax["calib"]):
         if q < m:
             continue
+        if tier == "quick" and variant != "plain" and ((d, m) != (2, 1) or q != 2):
+            continue  # quick: the initial-constraint variant on one (d, m, q) only
         if tier == "thorough":
             # thorough budget (about one hour on 16 cores): high orders for d <= 2 only (the exact reference at n = (q+1)d > 18 is too
             # slow); the non-plain variants on a (d, m, q) sub-lattice
